@@ -96,6 +96,39 @@ def check(prog, run):
             run.report(r, "%s:Parser:%s:%s(%s)" % (PARSER, label, side, text), "src/py_gql/lang/parser.py",
                        "%s: the token string `%s` is %s" % (label, text, what), {"witness": [str(a) for a in witness], "side": side})
 
+    # ---- L2 character-level language of one lexer call
+    from .. import lexextract
+    from ..spec import lexical
+    r = run.rule("L2", "the character language of one Lexer.__next__ call (ignored characters, one token, what the lexer then "
+                       "knows about the next character, and the class of the token returned), extracted by abstract "
+                       "interpretation of the lexer into a regular expression over character classes, equals the "
+                       "specification's lexical grammar (maximal munch, the documented look-ahead restriction after numbers, "
+                       "escape and block-string rules); decided by product-DFA equivalence with a shortest witness", 1)
+    A = lexextract.Alphabet(prog)
+    li = lexextract.LexInterp(prog, A)
+    try:
+        limpl = li.token_language()
+    except lexextract.Unsupported as e:
+        raise AnalysisError("C01.L2: cannot extract the lexer: %s" % e)
+    lref = lexical.LexReference(A).one_call()
+    res = rx.equivalent(limpl, lref)
+    r.instance("Lexer.__next__ over %d character classes (str predicates in use: %s): %s" % (len(A.chars), A.preds or "none", "equivalent" if res is None else "DIFFERS"))
+    if res is not None:
+        witness, side = res
+        shown = []
+        for a in witness:
+            if isinstance(a, tuple) and a[0] == "la":
+                shown.append("<next: %s>" % A.show(a[1]))
+            elif isinstance(a, tuple) and a[0] == "ret":
+                shown.append("=> %s" % a[1])
+            else:
+                shown.append(A.show(a))
+        text = " ".join(shown)
+        what = ("is lexed this way by the implementation but not by the lexical grammar" if side == "impl-only"
+                else "is a valid lexing by the lexical grammar that the implementation rejects (or lexes differently)")
+        run.report(r, "%s:Lexer.__next__:%s(%s)" % (lexextract.LEXER, side, text), "src/py_gql/lang/lexer.py",
+                   "character sequence `%s` %s" % (text, what), {"witness": [str(a) for a in witness], "side": side})
+
     # ---- G2 primitive contracts
     r = run.rule("G2", "parser primitives have their contract languages: expect(K)=K, expect_keyword(w)=Name[w], skip(K)=K?, "
                        "many(o,f,c)=o f+ c, any_(o,f,c)=o f* c, delimited_list(d,f)=d? f (d f)*; advance/peek window never loses or "
